@@ -475,6 +475,10 @@ func report(p *Prop, tier string, seed int64, st *Stats, compared, identical int
 	unreplayable := 0
 	knownHit := map[string]int{}
 	replayDir := filepath.Join(verifDir(), "replays")
+	if noEvidence {
+		// tool runs (seeded / benign changes) may overlap in time: keep their replay files apart
+		replayDir = filepath.Join(verifDir(), ".build", "replays", strconv.Itoa(os.Getpid()))
+	}
 	const maxGroups = 12
 	for gi, g := range order {
 		f := groups[g][0]
